@@ -877,6 +877,13 @@ impl TypeChecker {
                 self.type_info.function_calls.insert(span, function);
                 return Ok(diverges);
             }
+
+            // Not an ip address, so this is the numeric division. The left
+            // operand has been checked already; checking it a second time
+            // would make a chain of `/` exponential in its length.
+            return self.numeric_binop_rest(
+                scope, ctx, span, left, right, var, diverges,
+            );
         };
 
         if let Add = op {
@@ -930,6 +937,14 @@ impl TypeChecker {
                     return Ok(diverges);
                 }
             }
+
+            // Neither a string nor a list, so this is the numeric addition.
+            // The left operand has been checked already; checking it a
+            // second time would make a chain of `+` exponential in its
+            // length.
+            return self.numeric_binop_rest(
+                scope, ctx, span, left, right, var, diverges,
+            );
         }
 
         match op {
@@ -1003,6 +1018,31 @@ impl TypeChecker {
                     Err(self.error_expected_int_value(left, &operand_ty))
                 }
             }
+        }
+    }
+
+    /// Finish checking a numeric binary operator of which the left operand
+    /// has already been checked against `operand_ty`.
+    #[allow(clippy::too_many_arguments)]
+    fn numeric_binop_rest(
+        &mut self,
+        scope: ScopeRef,
+        ctx: &Context,
+        span: MetaId,
+        left: &Meta<ast::Expr>,
+        right: &Meta<ast::Expr>,
+        operand_ty: Type,
+        mut diverges: bool,
+    ) -> TypeResult<bool> {
+        if self.type_info.is_numeric_type(&operand_ty) {
+            let new_ctx = ctx.with_type(operand_ty.clone());
+            diverges |= self.expr(scope, &new_ctx, right)?;
+
+            self.unify(&ctx.expected_type, &operand_ty, span, None)?;
+
+            Ok(diverges)
+        } else {
+            Err(self.error_expected_numeric_value(left, &operand_ty))
         }
     }
 
